@@ -406,25 +406,12 @@ func checkC11Decode(c *Check, p *Program) {
 		facts := factsAt(al.Block())
 		wantCtl := nt.Obj().Name() == "ControlData"
 		okD := anyFact(facts, func(f Cmp) bool {
-			if f.Op != token.EQL && f.Op != token.NEQ {
+			b, ok := factBit(ev, f)
+			if !ok || b.Src != "data[1]" || b.Idx != 7 {
 				return false
 			}
-			bx := evalOne(f.X)
-			k, isK := constInt(f.Y)
-			if bx == nil || !isK || k != 128 {
-				return false
-			}
-			only7 := true
-			for i, b := range bx {
-				if i == 7 {
-					if b.K != bsrc || b.Src != "data[1]" || b.Idx != 7 {
-						only7 = false
-					}
-				} else if b.K != b0 {
-					only7 = false
-				}
-			}
-			return only7 && ((f.Op == token.EQL) == wantCtl)
+			// b.K == bsrc: the fact says bit 7 is set
+			return (b.K == bsrc) == wantCtl
 		})
 		c.Decide(okD, "C11.decode", nt.Obj().Name()+" selected by bit 7 of the TPCI octet", p.InstrPos(al), "control unit iff data[1] bit 7 is set", "the control/data flag is not taken from bit 7 of the TPCI octet")
 		if !wantCtl {
@@ -475,4 +462,52 @@ func stripPtrConv(v ssa.Value) ssa.Value {
 		}
 	}
 	return v
+}
+
+// factBit: the comparison is equivalent to "source bit b is 1" (bsrc) or
+// "source bit b is 0" (bnot).
+func factBit(ev *BitEval, f Cmp) (bit, bool) {
+	if f.Op != token.EQL && f.Op != token.NEQ {
+		return bit{}, false
+	}
+	ax, ay := ev.Eval(f.X), ev.Eval(f.Y)
+	if len(ax) != 1 || len(ay) != 1 || ax[0].V == nil || ay[0].V == nil {
+		return bit{}, false
+	}
+	a, b := ax[0].V, ay[0].V
+	if _, ok := a.Const(); ok {
+		a, b = b, a
+	}
+	kb, ok := b.Const()
+	if !ok {
+		return bit{}, false
+	}
+	w := len(a)
+	var free []int
+	for i := 0; i < w; i++ {
+		want := kb>>uint(i)&1 == 1
+		switch a[i].K {
+		case b0:
+			if want {
+				return bit{}, false
+			}
+		case b1:
+			if !want {
+				return bit{}, false
+			}
+		default:
+			free = append(free, i)
+		}
+	}
+	if len(free) != 1 || (a[free[0]].K != bsrc && a[free[0]].K != bnot) {
+		return bit{}, false
+	}
+	res := a[free[0]]
+	if kb>>uint(free[0])&1 == 0 {
+		res = bitNot(res)
+	}
+	if f.Op == token.NEQ {
+		res = bitNot(res)
+	}
+	return res, true
 }
